@@ -500,9 +500,10 @@ PROPS = {
     },
     "C01": {
         "lean_modules": ["Dbg.Props.C01"],
-        "theorems": ["Compress.C01_ids_partition", "Compress.C01_walk_no_panic", "Compress.compress_components_concrete", "Walk.compress_components"],
-        "partial": ["string assembly (windows of the assembled node = keys of the path ids), recorded-steps clause, payload fold, and the equality of "
-                    "compressKmersC's id lists with Walk.compress: not yet proved; partitionOK/stepsOK/payloadOK are evaluated on the crate's nodes"],
+        "theorems": ["Compress.C01_partition", "Compress.C01_node_assembly", "Compress.C01_nodes_are_id_paths", "Compress.C01_ids_partition",
+                     "Compress.C01_walk_no_panic", "Compress.compress_components_concrete", "Walk.compress_components"],
+        "partial": ["recorded-steps clause in its bit-level form (stepsOK: both k-mers of every node-internal step record the extension) - "
+                    "evaluated on the crate's nodes; the from-slice / no-exts wrappers are tied by correspondence only"],
         "n_quick": 3000, "n_thorough": 200000,
         "nontrivial": _c01_nontrivial, "tags": _c01_tags, "shrink": _table_shrink,
         "rule": _C01_RULE,
@@ -512,10 +513,9 @@ PROPS = {
     },
     "C02": {
         "lean_modules": ["Dbg.Props.C02"],
-        "theorems": ["Compress.C02_components", "Compress.C02_link_sym", "Compress.linkOf_sym", "Compress.noPanic"],
-        "partial": ["the theorem is about id-nodes of the abstract seed-and-walk loop over linkOf; its transfer to the node *sequences* produced by "
-                    "compressKmersC (string assembly) is not yet proved; componentsOK (union of good links recomputed from the table) is "
-                    "evaluated on the crate's nodes"],
+        "theorems": ["Compress.C02_components_seq", "Compress.C02_components", "Compress.C02_link_sym", "Compress.linkOf_sym", "Compress.noPanic"],
+        "partial": ["uniqueness up to cycle cut/orientation (C02_unique) is not stated separately; the executable componentsOK (good links recomputed "
+                    "from the table by a definition independent of linkOf) is evaluated on the crate's nodes"],
         "n_quick": 3000, "n_thorough": 200000,
         "nontrivial": _c01_nontrivial, "tags": _c01_tags, "shrink": _table_shrink,
         "harness_key": "C02",
